@@ -391,32 +391,50 @@ deriving DecidableEq, Repr, Inhabited
 
 def SqlDb.empty : SqlDb := { sketches := [], hashes := [] }
 
-/-- an open `SqliteIndex`: the tables and `self.scaled` -/
+/-- an open `SqliteIndex`: the tables, `self.scaled`, and the connection's `last_insert_rowid()` -/
 structure SqlIndex where
   db : SqlDb
   scaled : Option Nat
+  lastRowid : Nat
 deriving DecidableEq, Repr, Inhabited
 
-/-- `SqliteIndex.create(location, append=True)`: `SELECT DISTINCT scaled`; more than one value refuses -/
+/-- `SqliteIndex.create(location, append=True)`: `SELECT DISTINCT scaled`; more than one value refuses.
+    A fresh connection has `last_insert_rowid() = 0`. -/
 def SqlIndex.open (db : SqlDb) : Res SqlIndex :=
   match dedup (db.sketches.map (·.row.scaled)) with
-  | [] => .ok { db := db, scaled := none }
-  | [s] => .ok { db := db, scaled := some s }
+  | [] => .ok { db := db, scaled := none, lastRowid := 0 }
+  | [s] => .ok { db := db, scaled := some s, lastRowid := 0 }
   | _ => .err .valueError
 
-/-- `SqliteIndex.insert(ss)`: since commit 005b230 (the fix of C10.2) the row handed to `_insert_row`
-    carries the sketch's seed (`recordSeed = true`); before that it carried none and 42 was recorded
-    (`recordSeed = false`).  The translator reports which it is. -/
+/-- the rowid SQLite gives a new `sourmash_sketches` row (`id INTEGER PRIMARY KEY`, no AUTOINCREMENT):
+    one more than the largest rowid in the table, 1 for an empty table -/
+def nextRowid (db : SqlDb) : Nat := (db.sketches.map (·.id)).foldl max 0 + 1
+
+/-- `INSERT OR IGNORE INTO sourmash_sketches ...` under `UNIQUE(internal_location, md5sum)`: a row whose
+    (location, md5) pair is already present is IGNORED (NULL locations never collide: SQL NULLs are
+    distinct).  Returns the table and the connection's new `last_insert_rowid()`: the new id when a row
+    went in, the OLD value when the insert was ignored. -/
+def insertRowOrIgnore (db : SqlDb) (lastRowid : Nat) (row : Row) (seed : Nat) : SqlDb × Nat :=
+  let conflict := row.loc ≠ none ∧ ∃ sk ∈ db.sketches, sk.row.loc = row.loc ∧ sk.row.md5 = row.md5
+  if conflict then (db, lastRowid)
+  else
+    let id := nextRowid db
+    ({ db with sketches := db.sketches ++ [{ id := id, row := row, seed := seed }] }, id)
+
+/-- `SqliteIndex.insert(ss)`: refusals; manifest row (location None) through `_insert_row`;
+    `SELECT last_insert_rowid()` gives the sketch id; one `sourmash_hashes` row per hash under that id.
+    Since commit 005b230 (the fix of C10.2) the row carries the sketch's seed (`recordSeed = true`); before
+    that it carried none and 42 was recorded.  The translator reports which it is. -/
 def SqlIndex.insert (recordSeed : Bool) (ix : SqlIndex) (ss : Sig) : Res SqlIndex :=
   if ss.num ≠ 0 then .err .valueError
   else if ss.track then .err .valueError
   else
     let go (ix : SqlIndex) : Res SqlIndex :=
-      let id := ix.db.sketches.length + 1        -- INTEGER PRIMARY KEY, nothing is ever deleted
       let row := mkRow ss none
-      .ok { ix with db :=
-        { sketches := ix.db.sketches ++ [{ id := id, row := row, seed := if recordSeed then ss.seed else 42 }],
-          hashes := ix.db.hashes ++ ss.hashes.map fun h => (convertHashTo h.1, id) } }
+      let (db', last) := insertRowOrIgnore ix.db ix.lastRowid row (if recordSeed then ss.seed else 42)
+      let sketchId := last                       -- c.execute("SELECT last_insert_rowid()")
+      .ok { ix with lastRowid := last, db :=
+        { db' with hashes := db'.hashes ++ ss.hashes.map fun h => (convertHashTo h.1, sketchId) } }
     match ix.scaled with
     | some s => if s ≠ ss.scaled then .err .valueError else go ix
     | none => go { ix with scaled := some ss.scaled }
@@ -465,10 +483,60 @@ def sqlManifestKeep : List Row → List Row
   | [] => []
   | r :: rest => r :: (sqlManifestKeep rest).filter (fun q => !(q.loc = r.loc && q.md5 = r.md5))
 
-/-- `StandaloneManifestIndex.signatures()` over a manifest all of whose rows point at one collection:
-    the collection is loaded and restricted to the picklist `(name, md5[:8])` of the manifest's rows -/
+/-- `manifest.to_picklist()`: the set of `(identifier, md5[:8])` of the rows (the identifier is the name up
+    to the first space; the harness's names have none) -/
+def picklistOf (rows : List Row) : List (Nat × Nat) := rows.map fun r => (r.name, r.md5short)
+
+/-- `StandaloneManifestIndex.signatures()` over a manifest all of whose rows point at one collection that
+    is NOT a zip (MultiIndex, SqliteIndex: `select(picklist=...)` filters the rows, each row is one
+    signature): the collection's signatures restricted to the picklist of the manifest's rows -/
 def standaloneLoad (rows : List Row) (loaded : List Sig) : List Sig :=
-  loaded.filter fun s => (rows.map fun r => (r.name, r.md5short)).contains (s.name, md5short s.md5)
+  loaded.filter fun s => (picklistOf rows).contains (s.name, md5short s.md5)
+
+/-- `ZipFileLinearIndex.select(picklist=pl).signatures()`: the zip's manifest rows matching the picklist,
+    their distinct locations, each member loaded, `ss in manifest` w.r.t. the SELECTED rows -/
+def zipSelectLoad (z : Zip) (picks : List (Nat × Nat)) : Res (List Sig) :=
+  match read z .manifest with
+  | some (.manifest rows) =>
+    let sel := rows.filter fun r => picks.contains (r.name, r.md5short)
+    loadLocs z sel (locations sel)
+  | _ => .err .notImplemented     -- manifest-less zips are not written by the savers
+
+/-- a few collections on disk, by path -/
+abbrev Fs := List (Nat × Zip)
+
+def fsLookup : Fs → Nat → Option Zip
+  | [], _ => none
+  | (k, z) :: t, n => if k = n then some z else fsLookup t n
+
+def concatRes : List (Res (List Sig)) → Res (List Sig)
+  | [] => .ok []
+  | .ok l :: rest =>
+    match concatRes rest with
+    | .ok more => .ok (l ++ more)
+    | .err e => .err e
+  | .err e :: _ => .err e
+
+/-- `StandaloneManifestIndex.signatures()`: ONE picklist from all rows; for each distinct
+    internal_location: `load_file_as_index(iloc).select(picklist=picklist).signatures()` -/
+def standaloneLoadFs (fs : Fs) (mfRows : List Row) : Res (List Sig) :=
+  concatRes ((locations mfRows).map fun loc =>
+    match loc with
+    | some (.other k) =>
+      match fsLookup fs k with
+      | some z => zipSelectLoad z (picklistOf mfRows)
+      | none => .err .valueError
+    | _ => .err .valueError)
+
+/-- `MultiIndex.load_from_pathlist`: every listed file through the generic loader, signatures concatenated -/
+def pathlistLoadFs (fs : Fs) (paths : List Nat) : Res (List Sig) :=
+  concatRes (paths.map fun k =>
+    match fsLookup fs k with
+    | some z => zipLoad z
+    | none => .err .valueError)
+
+/-- the rows of a collection's manifest as `sig collect` writes them: internal_location := the collection -/
+def relocate (k : Nat) (rows : List Row) : List Row := rows.map fun r => { r with loc := some (.other k) }
 
 /-! ## LCA database (`LCA_Database`) -/
 
@@ -519,9 +587,7 @@ def LcaDb.len (db : LcaDb) : Nat := db.nextIndex
 /-- JSON save + load: the tables are written out and read back; `_next_index` is recomputed as
     `max(ident_to_idx.values()) + 1` (0 when empty) -/
 def LcaDb.saveLoad (db : LcaDb) : LcaDb :=
-  { db with nextIndex := match (db.identToIdx.map (·.2)).max? with
-      | some m => m + 1
-      | none => 0 }
+  { db with nextIndex := if db.identToIdx.isEmpty then 0 else (db.identToIdx.map (·.2)).foldl max 0 + 1 }
 
 /-- `LCA_Database._signatures`: invert `hashval_to_idx`; since commit 74325d9 (`yieldEmpty = true`, the fix
     of D11) every idx of `_idx_to_ident` gets an entry as well, before that an idx that owns no hash never
